@@ -136,7 +136,7 @@ func main() {
 	family := flag.String("family", "", "case family")
 	prop := flag.String("prop", "", "property id (informational)")
 	out := flag.String("out", "", "result file")
-	maxReport := flag.Int("max-report", 25, "max failures kept in the result")
+	maxReport := flag.Int("max-report", 12, "max failures kept in the result per failure signature")
 	progress = flag.String("progress", "", "write the source of each case here before running it (slow; crash attribution)")
 	flag.Var(&ins, "in", "TLC output file (repeatable)")
 	flag.Parse()
@@ -182,6 +182,7 @@ func main() {
 	start := time.Now()
 	res := Result{Family: *family, Property: *prop}
 	seen := map[string]bool{}
+	perSig := map[string]int{}
 	var digest [32]byte
 	var mu sync.Mutex
 	type job struct {
@@ -224,7 +225,11 @@ func main() {
 					if fl.Replay == nil {
 						fl.Replay = map[string]any{"hdr": j.hdr, "case": j.c}
 					}
-					if len(res.Failures) < *maxReport {
+					// keep a bounded number of failures PER SIGNATURE (kind + features): a crowd of
+					// known findings must never push a different failure out of the report
+					sig := fl.Kind + "|" + strings.Join(fl.Features, ",")
+					perSig[sig]++
+					if perSig[sig] <= *maxReport && len(res.Failures) < 40**maxReport {
 						res.Failures = append(res.Failures, fl)
 					}
 				}
